@@ -230,6 +230,21 @@ enum Atom {
 #[derive(Clone, Copy, Debug, PartialEq)]
 enum CutKind { No, Plain, Chars }
 
+/// A large SST of 8-bit strings, cut only between strings (a new CONTINUE whenever the next string would pass 8224 bytes).
+pub fn sst_records_whole(strings: &[String], total_refs: u32) -> Vec<u8> {
+    let mut out = vec![];
+    let mut cur: Vec<u8> = vec![]; cur.extend(total_refs.to_le_bytes()); cur.extend((strings.len() as u32).to_le_bytes());
+    let mut typ = 0x00FCu16;
+    for s in strings {
+        assert!(s.is_ascii());
+        let mut d = (s.len() as u16).to_le_bytes().to_vec(); d.push(0); d.extend(s.as_bytes());
+        if cur.len() + d.len() > 8224 { out.extend(rec(typ, &cur)); typ = 0x003C; cur.clear(); }
+        cur.extend(d);
+    }
+    out.extend(rec(typ, &cur));
+    out
+}
+
 /// Serialise the SST into SST + CONTINUE records. Every legal cut point is a choice (default: no cut
 /// unless the 8224-byte limit forces one); every character segment that is compressible may be stored
 /// 8-bit or 16-bit (default 8-bit).
